@@ -331,6 +331,8 @@ func (m *Map[K, V]) MarshalYAML() (any, error) {
 		if err := nv.Encode(v); err != nil {
 			return err
 		}
+		quoteMergeString(nk)
+		quoteMergeString(nv)
 		n.Content = append(n.Content, nk, nv)
 		return nil
 	})
@@ -339,6 +341,15 @@ func (m *Map[K, V]) MarshalYAML() (any, error) {
 		return nil, err
 	}
 	return n, nil
+}
+
+// quoteMergeString undoes yaml.v3's encoding of the string "<<" as a merge key
+// (tag !!merge), which would be read back as a merge. As a key or value of an
+// ordered map it is an ordinary string.
+func quoteMergeString(n *yaml.Node) {
+	if n.Kind == yaml.ScalarNode && n.Tag == "!!merge" {
+		n.Tag, n.Style = "!!str", yaml.DoubleQuotedStyle
+	}
 }
 
 // UnmarshalJSON unmarshals to JSON. It only supports K = string.
